@@ -9,15 +9,7 @@ From Cell2V Require Import Common.Tac Common.ListX Common.AList C19.Model C19.Sp
 Definition obs := (res * dump)%type.
 Definition case := (list op * list obs)%type.
 
-Fixpoint agree_from (s : st) (ops : list op) (bs : list obs) : bool :=
-  match ops, bs with
-  | [], [] => true
-  | o :: r, (rs, d) :: br =>
-      let '(s1, adm) := step s o in
-      existsb (res_eqb rs) adm && dump_eqb (dump_of s1) d && agree_from s1 r br
-  | _, _ => false
-  end.
-
+(* [agree_from] (the model run along an implementation trace) is defined in Spec.v *)
 Definition agree (c : case) : bool := agree_from init (fst c) (snd c).
 
 Definition monitor (c : case) : bool := monitor_trace (fst c) (snd c).
